@@ -883,6 +883,7 @@ def run_concrete(scenario, values):
 # pool plumbing ----------------------------------------------------------------------------
 
 _POOL_SCENARIO = None
+PROFILE_PATHS = 5
 
 
 def _pool_run(args):
@@ -941,7 +942,7 @@ def explore(scenario, workers=1, budget_s=None, max_paths=None, sample_every=Non
         if r["status"] == "harness-error":
             ex.errors.append(r["error"])
         if r.get("functions"):
-            ex.functions = r["functions"]
+            ex.functions = sorted(set(ex.functions) | set(r["functions"]))
         if len(ex.samples) < 4 and r["status"] == "ok" and (r["depth"] > 0 or first):
             ex.samples.append({"decisions": [d[1] for d in r["path"]][:40],
                                "path_condition_tail": r["pc_sample"], "notes": _jsonable(r["notes"]),
@@ -957,14 +958,14 @@ def explore(scenario, workers=1, budget_s=None, max_paths=None, sample_every=Non
     if workers <= 1:
         while todo and not over_budget():
             prefix = todo.pop()
-            absorb(run_path(scenario, prefix, profile=(ex.paths == 0 and not ex.functions)))
+            absorb(run_path(scenario, prefix, profile=(ex.paths < PROFILE_PATHS)))
     else:
         import multiprocessing as mp
         _POOL_SCENARIO = scenario
         mpctx = mp.get_context("fork")
         with mpctx.Pool(workers) as pool:
             pending = []
-            # run the first path alone with the profiler
+            submitted = 1
             pending.append(pool.apply_async(_pool_run, ((todo.pop(), True),)))
             while pending:
                 progressed = False
@@ -974,7 +975,8 @@ def explore(scenario, workers=1, budget_s=None, max_paths=None, sample_every=Non
                         absorb(p.get())
                         progressed = True
                 while todo and len(pending) < workers * 3 and not over_budget():
-                    pending.append(pool.apply_async(_pool_run, ((todo.pop(), False),)))
+                    pending.append(pool.apply_async(_pool_run, ((todo.pop(), submitted < PROFILE_PATHS),)))
+                    submitted += 1
                 if over_budget() and not pending:
                     break
                 if not progressed:
